@@ -11,9 +11,9 @@ use crate::validation::{check_dynamic_per_address_limit, get_three_percent_of_to
 #[cfg(not(feature = "library"))]
 use cosmwasm_std::entry_point;
 use cosmwasm_std::{
-    coin, ensure, from_json, to_json_binary, Addr, Binary, Coin, CosmosMsg, Decimal, Deps, DepsMut,
-    Empty, Env, Event, MessageInfo, Order, Reply, ReplyOn, Response, StdError, StdResult, SubMsg,
-    Timestamp, Uint128, WasmMsg,
+    coin, ensure, from_json, to_json_binary, Addr, BankMsg, Binary, Coin, CosmosMsg, Decimal, Deps,
+    DepsMut, Empty, Env, Event, MessageInfo, Order, Reply, ReplyOn, Response, StdError, StdResult,
+    SubMsg, Timestamp, Uint128, WasmMsg,
 };
 use cw2::set_contract_version;
 use cw721::Cw721ReceiveMsg;
@@ -464,6 +464,7 @@ fn _execute_mint(
     burn_message: Option<CosmosMsg>,
 ) -> Result<Response, ContractError> {
     let mut network_fee = Uint128::zero();
+    let mut seller_amount = Uint128::zero();
     let mintable_num_tokens = MINTABLE_NUM_TOKENS.load(deps.storage)?;
     if mintable_num_tokens == 0 {
         return Err(ContractError::SoldOut {});
@@ -508,6 +509,8 @@ fn _execute_mint(
         }
         let airdrop_fee_bps = Decimal::bps(factory_params.airdrop_mint_fee_bps);
         network_fee = airdrop_price.amount * airdrop_fee_bps;
+        // the net amount is airdrop mint price - network fee
+        seller_amount = airdrop_price.amount - network_fee;
     }
 
     let mut res = Response::new();
@@ -522,6 +525,18 @@ fn _execute_mint(
             false,
             None,
         )?;
+    }
+
+    // Sending 0 coins fails, so only send if amount is non-zero
+    if !seller_amount.is_zero() {
+        let msg = BankMsg::Send {
+            to_address: config.extension.admin.to_string(),
+            amount: vec![coin(
+                seller_amount.u128(),
+                factory_params.airdrop_mint_price.clone().denom,
+            )],
+        };
+        res = res.add_message(msg);
     }
 
     let mintable_token_mapping = match token_id {
